@@ -74,6 +74,7 @@ class StandardQTomographyBasedWeightedProbabilityBasedSquaredError(
     def _calc_extend_weight_matrix(self) -> None:
         # if weight_matrices is None, not calculate.
         if self.weight_matrices is None:
+            self._extend_weight_matrix = None
             return
 
         # calc the extend weight matrix.
